@@ -826,7 +826,11 @@ func allFinished() bool {
 	return true
 }
 
-func waitQuiescent() {
+// Stuck is set when a thread failed to reach a schedule point for stuckAfter: the process
+// state is poisoned (that goroutine cannot be stopped) and the worker must exit after reporting.
+var Stuck bool
+
+func waitQuiescent() bool {
 	spins := 0
 	var start time.Time
 	for !quiescent() {
@@ -838,11 +842,16 @@ func waitQuiescent() {
 			} else if time.Since(start) > stuckAfter {
 				buf := make([]byte, 1<<16)
 				n := runtime.Stack(buf, true)
-				panic("vsched: a thread is stuck outside the scheduler (uncontrolled blocking operation?)\n" + dumpThreads() + string(buf[:n]))
+				stuckDetail = "a thread did not reach a schedule point for " + stuckAfter.String() + " (busy loop in the code under test, or an uncontrolled blocking operation)\n" + dumpThreads() + trimStack(string(buf[:n]))
+				Stuck = true
+				return false
 			}
 		}
 	}
+	return true
 }
+
+var stuckDetail string
 
 var stuckAfter = 20 * time.Second
 
@@ -936,7 +945,14 @@ func Run(main func(), ch Chooser, opts Options) *Result {
 	var reqs [MaxThreads]request
 	var states [MaxThreads]int32
 	for step := 0; ; step++ {
-		waitQuiescent()
+		if !waitQuiescent() {
+			res.Outcome = Livelock
+			res.Detail = stuckDetail
+			res.Points = append([]Point(nil), c.points...)
+			res.Trace = c.trace
+			res.Events = Events()
+			return res // no tear-down possible: the caller must not start another execution
+		}
 		n := numThreads()
 		// a panic in any thread ends the execution
 		panicked := false
